@@ -1,0 +1,18 @@
+//go:build verif
+
+package imapmemserver
+
+import (
+	"time"
+
+	"github.com/emersion/go-imap/v2"
+)
+
+// VerifMessageSearch exposes message.search to the verification harness (build tag verif only).
+func VerifMessageSearch(uid imap.UID, buf []byte, t time.Time, flags []imap.Flag, seqNum uint32, criteria *imap.SearchCriteria) bool {
+	msg := &message{uid: uid, buf: buf, t: t, flags: make(map[imap.Flag]struct{})}
+	for _, f := range flags {
+		msg.flags[canonicalFlag(f)] = struct{}{}
+	}
+	return msg.search(seqNum, criteria)
+}
